@@ -147,7 +147,7 @@ void FlexPath::scale(double scael_factor, const Vec2 center) {
     if (scale_width) wo_scale.u = wo_scale.v;
     FlexPathElement* el = elements;
     for (uint64_t ne = 0; ne < num_elements; ne++, el++) {
-        el->end_extensions *= scael_factor;
+        el->end_extensions *= fabs(scael_factor);
         Vec2* wo = el->half_width_and_offset.items;
         for (uint64_t num = spine.point_array.count; num > 0; num--) *wo++ *= wo_scale;
     }
@@ -212,13 +212,13 @@ void FlexPath::transform(double magnification, bool x_reflection, double rotatio
         p->x = q.x * ca - q.y * sa + origin.x;
         p->y = q.x * sa + q.y * ca + origin.y;
     }
-    Vec2 wo_scale = {1, magnification};
-    if (scale_width) wo_scale.x = magnification;
+    Vec2 wo_scale = {1, fabs(magnification)};
+    if (scale_width) wo_scale.x = fabs(magnification);
     // Offsets are measured to the left of the path direction: a reflection swaps sides
     if (x_reflection) wo_scale.y = -wo_scale.y;
     FlexPathElement* el = elements;
     for (uint64_t ne = 0; ne < num_elements; ne++, el++) {
-        el->end_extensions *= magnification;
+        el->end_extensions *= fabs(magnification);
         Vec2* wo = el->half_width_and_offset.items;
         for (uint64_t num = spine.point_array.count; num > 0; num--) *wo++ *= wo_scale;
     }
